@@ -492,6 +492,12 @@ def rule_idx_space(ctx: RuleContext, p: Program, rid: str) -> None:
             src = norm(fn.node)
             if '_raw_wrapper' not in src and '_raw_indexes' not in src and 'super()' not in src and c is not handler:
                 continue
+            # a private helper that other methods of the view call as self._h(..) is analysed through those calls (with the spaces of
+            # the actual arguments), not on its own with unknown parameters
+            if c is not handler and fn.name.startswith('_') and not fn.name.startswith('__') and fn.kind not in ('staticmethod', 'classmethod') \
+                    and any(isinstance(x, ast.Call) and isinstance(x.func, ast.Attribute) and x.func.attr == fn.name and isinstance(x.func.value, ast.Name)
+                            and x.func.value.id == 'self' for k in classes for g in k.methods() if g is not fn for x in ast.walk(g.node)):
+                continue
             is_h = c is handler
             sc = SpaceCheck(fn, is_h, c)
             env: dict = {}
